@@ -201,6 +201,7 @@ class BLOB(Element):
         )
 
     def set_value_from_message(self, msg):
-        blob_value = values.BLOB.from_base64(msg.value, msg.format)
+        # an empty payload arrives as an element without text
+        blob_value = values.BLOB.from_base64(msg.value or "", msg.format)
         assert int(msg.size) == blob_value.size
         self.set_value(blob_value)
